@@ -247,6 +247,21 @@ def involves_strings(f) -> bool:
     AST ids are recycled after garbage collection)"""
     if isinstance(f, bool):
         return False
+    k0 = f.get_id()
+    hit = _str_cache.get(k0)
+    if hit is not None and hit[0].eq(f):
+        return hit[1]
+    r = _involves_strings(f)
+    if len(_str_cache) > 100000:
+        _str_cache.clear()
+    _str_cache[k0] = (f, r)        # the term is kept alive by the cache, so its id cannot be recycled while cached
+    return r
+
+
+_str_cache = {}
+
+
+def _involves_strings(f) -> bool:
     seen = set()
     stack = [f]
     while stack:
@@ -347,7 +362,7 @@ def discharge(ob: Obligation, timeout_ms: int = 10000, use_cli: bool = True) -> 
     fs = ob.formula_for_check()
     for f in fs:
         s.add(f)
-    size = sum(len(f.sexpr()) for f in fs)
+    size = len(fs)            # number of assertions in the query
     r = s.check()
     backend = 'z3'
     res = str(r)
